@@ -4,6 +4,8 @@ from vf.harness import common as H
 from vf import families
 
 PROPERTY = "C03"
+# random 4..6-member definitions with several forking members can explode: cap them so that the budget reaches the other families
+SETTINGS_THOROUGH = {"case_budget": 45.0, "max_paths": 20000}
 BOUNDS = {"all": "definitions: curated + every 1-field (full alphabet) + every 2-field (core alphabet) struct [quick]; "
                  "full alphabet 2-field exhaustive, 3-field and 3..6-field random samples [thorough]; input = extent+slack symbolic "
                  "bytes (<= 40) at offset 0 and at a symbolic aligned start offset p < 2^20; every truncation is a path of the "
